@@ -43,6 +43,7 @@ type vSimEvent struct {
 	Jit   int64          `json:"jitter"` // ms
 	Tmo   int64          `json:"timeout"`
 	Count int            `json:"count"` // burst: number of user messages
+	Host  bool           `json:"host"`  // crash: the whole host goes away (connection attempts time out instead of being refused)
 }
 
 type vSimPlan struct {
@@ -371,7 +372,11 @@ func (v *vSim) exec(e vSimEvent) {
 				}
 			}
 		}
-		v.net.crash(e.Node)
+		if e.Host {
+			v.net.crashHost(e.Node)
+		} else {
+			v.net.crash(e.Node)
+		}
 		nd.up = false
 		v.s.Emit(l)
 		v.s.unregister(nd.m)
